@@ -254,7 +254,8 @@ func ruleR01b(c *Check, rule string) {
 		consumers = append(consumers, ldo)
 	}
 	for _, cons := range consumers {
-		reach := c.G.ReachableFuncs([]*ssa.Function{cons}, func(f *ssa.Function) bool { return f != cons && !engine.InPackage(f, "dag") })
+		consRegion := regionOf(c, cons)
+		reach := c.G.ReachableFuncs([]*ssa.Function{cons}, func(f *ssa.Function) bool { return !consRegion[f] && !engine.InPackage(f, "dag") })
 		ok := false
 		for _, n := range narrowers {
 			if reach[n] {
